@@ -220,3 +220,11 @@ def jsonable(o):
 
 def dumps(o):
     return json.dumps(jsonable(o), sort_keys=True)
+
+
+def gen_seed(rng):
+    """A seed argument for the library: mostly arbitrary, sometimes one of the values code is tempted to treat
+    specially (0 is falsy; 2**32 - 1 and 2**31 sit on integer-width boundaries)."""
+    if rng.random() < 0.08:
+        return rng.choice([0, 0, 0, 1, 2 ** 32 - 1, 2 ** 31])
+    return rng.randrange(1 << 30)
